@@ -64,6 +64,8 @@ type Engine struct {
 	specSt    *State
 	curReplay *replayInfo
 	errSites  map[string]string
+	recDefs   map[string]string // declare-fun line -> define-fun-rec line of recursive spec functions
+	recInfo   []recFun
 }
 
 type BoundedCheck struct {
@@ -341,7 +343,11 @@ func (e *Engine) Discharge() {
 		wg.Add(1)
 		go func(o *Obligation) {
 			defer wg.Done()
-			o.Result = Solve(o.Query, e.TimeoutMs, "")
+			to := e.TimeoutMs
+			if o.Kind == "cover" {
+				to = 2000 // a cover only has to be not refuted
+			}
+			o.Result = Solve(o.Query, to, "")
 		}(o)
 	}
 	wg.Wait()
